@@ -59,10 +59,10 @@ def make(spec):
         slave = sram.bus
     else:
         raise ValueError(kind)
-    req, adr, we, sel, data = Signal(), Signal(max=max(2, words)), Signal(), Signal(L), Signal(L)
+    req, adr, we, sel, data = Signal(2), Signal(max=max(2, words)), Signal(), Signal(L), Signal(L)
     cti, bte = Signal(3), Signal(2)
     top.comb += [
-        master.cyc.eq(req), master.stb.eq(req), master.we.eq(we), master.adr.eq(adr), master.sel.eq(sel),
+        master.cyc.eq(req != 0), master.stb.eq(req == 1), master.we.eq(we), master.adr.eq(adr), master.sel.eq(sel),
         master.cti.eq(cti), master.bte.eq(bte),
         master.dat_w.eq(Cat(*[Cat(data[l], Constant(0, 7)) for l in range(L)])),
     ]
@@ -83,7 +83,7 @@ def tla_cfg(spec, wi):
             "btes": spec.get("btes", [0]), "maxlen": spec["maxlen"],
             "sside": int(bool(spec.get("sside"))), "swords": spec["words"] * spec.get("ratio", 1) if spec["kind"] != "bup"
             else max(1, spec["words"] // spec["ratio"]),
-            "wi": wi}
+            "mwait": int(spec.get("mwait", 0)), "wi": wi}
 
 
 WRAPLEN = {0: 1, 1: 4, 2: 8, 3: 16}
@@ -125,12 +125,15 @@ def required_witnesses(spec):
         w.append("slave-side burst of three or more beats")
     if any(b and ml > WRAPLEN[b] for b in btes):
         w.append("wrap burst longer than the wrap size")
+    if spec.get("mwait") and ml >= 2 and btes:
+        w.append("beat of an incrementing burst after a master wait state")
+        w.append("cyc ahead of the first stb")
     return w
 
 
 class Hint:
-    """mirror of the Env master of FlatMemBurst.tla: ctx = (st, a0, k, kind, bte, we, held iv)"""
-    IDLE = (0, 0, 0, 0, 0, 0, None)
+    """mirror of the Env master of FlatMemBurst.tla: ctx = (st, a0, k, kind, bte, we, held iv, wait states so far)"""
+    IDLE = (0, 0, 0, 0, 0, 0, None, 0)
 
     def init(self, cfg):
         return self.IDLE
@@ -142,7 +145,8 @@ class Hint:
         return [x for x in range(1 << cfg["lanes"]) if x & ~sel == 0]
 
     def inputs(self, cfg, ctx):
-        st, a0, k, kind, bte, we, held = ctx
+        st, a0, k, kind, bte, we, held, wt = ctx
+        mw = cfg.get("mwait", 0)
         if st == 1:
             return [held]
         out = []
@@ -153,8 +157,12 @@ class Hint:
                 for x in self._wdata(cfg, we, sel):
                     for t in ctis:
                         out.append((1, a, we, sel, x, t, bte))
+            if wt < mw:
+                out += [(2, a, we, 0, 0, kind, bte), (2, 0, 0, 0, 0, 0, 0)]
             return out
         out.append((0, 0, 0, 0, 0, 0, 0))
+        if mw:
+            out += [(2, 0, 0, 0, 0, 2, b) for b in cfg["btes"]]
         tags = []
         if cfg["classic"]:
             tags.append((0, 0))
@@ -176,17 +184,19 @@ class Hint:
         return tuple(iv) in set(self.inputs(cfg, ctx))
 
     def next(self, cfg, ctx, iv, o):
-        st, a0, k, kind, bte, we, held = ctx
+        st, a0, k, kind, bte, we, held, wt = ctx
         iv = tuple(iv)
+        if iv[0] == 2:
+            return (2, a0, k, kind, bte, we, None, wt + 1) if st == 2 else self.IDLE
         if iv[0] == 0:
             return self.IDLE
         if st == 0:
             a0, k, kind, bte, we = iv[1], 0, iv[5], iv[6], iv[2]
         if o[0] == 0:
-            return (1, a0, k, kind, bte, we, iv)
+            return (1, a0, k, kind, bte, we, iv, 0)
         if iv[5] in (0, 7):
             return self.IDLE
-        return (2, a0, k + 1, kind, bte, we, None)
+        return (2, a0, k + 1, kind, bte, we, None, 0)
 
 
 def configs(tier):
@@ -202,6 +212,8 @@ def configs(tier):
     # wrap-4/8 and linear bursts of up to 6 (16) beats on a read-only 16-word memory: every start address, bursts
     # longer than the wrap size, linear bursts across the top of the address space, writes ignored
     add(kind="bsram_ro", lanes=1, words=16, init="idx", btes=[0, 1, 2, 3] if th else [0, 1, 2], maxlen=16 if th else 6)
+    # master wait states inside bursts (cyc high, stb low) and cyc ahead of the first stb, reads and writes
+    add(kind="bsram", lanes=1, words=4, init="idx", btes=[0, 1], maxlen=4, mwait=2 if th else 1, const=0, end1=0, classic=0)
     # byte lanes of a 16-bit memory in write bursts
     add(kind="bsram", lanes=2, words=2, init="alt", btes=[0], maxlen=3, sels=[1, 2, 3])
     # cti translation of the down-converter (16 -> 8 bit), slave side observed
